@@ -998,7 +998,11 @@ class PhaseField(_Simu):
         except AttributeError:
             resumeIter = ""
 
-        resumeIter += self.__resumeIter
+        try:
+            resumeIter += self.__resumeIter
+        except AttributeError:
+            # Results_Set_Iteration_Summary has never been called
+            pass
 
         return resumeIter
 
